@@ -311,7 +311,12 @@ static EXECUTIONS: AtomicUsize = AtomicUsize::new(0);
 /// Child mode: explore one (script, scenario, capacity, bound); prints `EXECUTIONS n`.
 fn child(script_name: &str, scen: &str, cap: usize, bound: Option<usize>) -> ! {
     let sc = SCENARIOS.iter().find(|s| s.name == scen).expect("scenario").clone();
-    let script_name = script_name.to_string();
+    // "S1+sp0": script S1 with a spurious wake-up at the first park call of every execution
+    let (script_name, spurious) = match script_name.split_once("+sp") {
+        Some((base, j)) => (base.to_string(), j.parse::<isize>().expect("spurious index")),
+        None => (script_name.to_string(), -1),
+    };
+    shim::thread::SPURIOUS_AT.store(spurious, Ordering::SeqCst);
     std::panic::set_hook(Box::new(|info| {
         let msg = info.payload().downcast_ref::<&str>().map(|s| s.to_string()).or_else(|| info.payload().downcast_ref::<String>().cloned()).unwrap_or_default();
         // the first panic is the interesting one
@@ -330,6 +335,7 @@ fn child(script_name: &str, scen: &str, cap: usize, bound: Option<usize>) -> ! {
     let t0 = std::time::Instant::now();
     b.check(move || {
         EXECUTIONS.fetch_add(1, Ordering::SeqCst);
+        shim::thread::PARK_CALLS.store(0, Ordering::SeqCst);
         script(&script_name, &sc, cap);
     });
     println!("EXECUTIONS {}", EXECUTIONS.load(Ordering::SeqCst));
@@ -460,6 +466,14 @@ fn main() {
                 }
                 for b in &bounds {
                     items.push((s, sc, cap, *b));
+                }
+            }
+        }
+        // one spurious wake-up (std permits them) at the first / second wait for `cont`
+        if !sc.breakpoints.is_empty() {
+            for s in ["S1+sp0", "S1+sp1", "S2+sp0", "S3+sp0", "S4+sp0"] {
+                for b in bounds.iter().filter(|b| matches!(b, Some(x) if *x <= 2)) {
+                    items.push((s, sc, 1, *b));
                 }
             }
         }
